@@ -113,6 +113,15 @@ def check_req_pair(c):
         true(devs, "pair.dict", {a: 1}.get(b) == 1, "equal request id not found as dictionary key")
     else:
         true(devs, "pair.dict_distinct", len({a: 1, b: 2}) == 2, "distinct request ids collapsed in a dictionary")
+    # two ids built around the SAME PacketId / PacketSeqCtrl objects (as a caller does who derives several ids from one header), differing
+    # in the version number only: different 32-bit values, so not equal
+    sp, s1, PFE, RequestId, PusTc = _m()
+    pid, psc = a.tc_packet_id, a.tc_psc
+    va = (c["a"] >> 29) & 7
+    for vb in {(va + 1) % 8, (va + 5) % 8, (c["b"] >> 29) & 7} - {va}:
+        x, y = RequestId(pid, psc, va), RequestId(pid, psc, vb)
+        true(devs, "pair.shared_sub_objects_other_version.ne", not (x == y) and not (y == x), f"ids with versions {va} and {vb} built from the same sub-objects compare equal")
+        eq(devs, "pair.shared_sub_objects_other_version.u32", (x.as_u32() ^ y.as_u32()) >> 29, va ^ vb)
     return devs
 
 
@@ -246,6 +255,20 @@ def check_report(c):
         eq(devs, "width_redeclared_in_place.bytes", bytes(rr.pack()), want)
         eq(devs, "width_redeclared_in_place.obs", obs_report(rr), want_report_obs(c))
         true(devs, "width_redeclared_in_place.eq_decoded", bool(s1.Service1Tm.unpack(want, up) == rr), "decoded report != report whose field widths were re-declared in place")
+    # a report built from a telecommand's header (the id shares the header's objects); the telecommand then moves on to its next sequence
+    # count: the report, packed again, still names the request it was built for
+    tc_hdr = sp.SpacePacketHeader(packet_type=sp.PacketType.TC, apid=(c["req_id"] >> 16) & 0x7FF, seq_count=c["req_id"] & 0x3FFF, data_len=0, sec_header_flag=bool((c["req_id"] >> 27) & 1),
+                                  seq_flags=sp.SequenceFlags((c["req_id"] >> 14) & 3), ccsds_version=(c["req_id"] >> 29) & 7)
+    if (c["req_id"] >> 28) & 1:
+        rid_live = RequestId.from_sp_header(tc_hdr)
+        step_l = None if c["step"] is None else PFE.with_byte_size(*c["step"])
+        fail_l = None if c["err"] is None else s1.FailureNotice(PFE.with_byte_size(*c["err"]), bytes.fromhex(c["fail_data"]))
+        rl = s1.Service1Tm(apid=c["apid"], subservice=s1.Subservice(c["sub"]), timestamp=ts, verif_params=s1.VerificationParams(rid_live, step_l, fail_l), seq_count=c["seq"],
+                           packet_version=c["ver"], space_time_ref=c["time_ref"], destination_id=c["dest_id"])
+        eq(devs, "report_of_live_tc.bytes", bytes(rl.pack()), want)
+        tc_hdr.seq_count = (tc_hdr.seq_count + 1) % 16384
+        tc_hdr.apid = (tc_hdr.apid + 1) % 2048
+        eq(devs, "report_of_live_tc.repack_after_tc_moved_on", bytes(rl.pack()), want)
     # one UnpackParams object serves a whole downlink: decoding must not change it, and a report of another kind decoded
     # earlier with the same object must not influence this one
     w_step, w_err = (c["step"][0] if c["step"] else 1), (c["err"][0] if c["err"] else 1)
